@@ -33,7 +33,9 @@ Mixed propagation (section `Mixed`):
 * `alphaCut_iso`  ★ the cut index depends on the level only (`iso_slicing` of the design);
 * `levelValue_mono` / `stackBound_mono` (in `Lemmas/Iso.lean`) ★ the generalised inverse of the cumulated mass is
   monotone in the focal endpoints (`geninv_antitone`); `stacking_iso`;
-* `slicing_iso`   ★ slicing with a fixed number of slices and the direct interval strategy.
+* `slicing_iso`   ★ slicing with a fixed number of slices and the direct interval strategy;
+* `rowImages_iso`, `imc_iso`  interval Monte Carlo for ANY rows of levels, provided both runs use the same rows (that a
+  dependency object draws the same rows on every call is a runtime fact: oracle).
 
 NOT proved (kept as `C12Statement` / `C12DivStatement`, checked by the correspondence and the oracle only): the
 Frechet product (and quotient) when an operand STRADDLES zero — the naive ∩ Balch branch — or when the sign class
